@@ -30,10 +30,7 @@ def GenValOk (v : Str) : Prop :=
   (∀ c ∈ v, c ≠ 59 ∧ isAscii c = true ∧ (isSpace c = true → c = 32)) ∧ v.head? ≠ some 32 ∧ v.getLast? ≠ some 32
 
 /-- keys strictly increasing (byte-wise): the canonical form of a Go map -/
-def KeysSorted : List (Str × Str) → Prop
-  | [] => True
-  | [_] => True
-  | a :: b :: rest => strLt a.1 b.1 = true ∧ KeysSorted (b :: rest)
+def KeysSorted (l : List (Str × Str)) : Prop := l.Pairwise fun a b => strLt a.1 b.1 = true
 
 /-- Valid parameters of each format type.  `mt` is the type of the media that holds the format. -/
 def ValidFormat (O : Oracle) (mt : Str) : Format → Prop
